@@ -206,3 +206,59 @@ def exhausting_loops(fi: FuncInfo, data: str
         out.append((loop, exits))
     return out
 
+
+
+def stale_verdicts(fi: FuncInfo) -> Tuple[List[Tuple[ast.AST, str]], int]:
+    """A match test that sits inside an element loop must judge a verdict
+    computed *for that element*: on every path from the top of the loop
+    body to the test, the matched flag has been assigned.  A path on which
+    it has not (an inner search loop that finds nothing, an `if` with no
+    `else`) leaves the verdict of the previous element in the flag.
+
+    Returns (offending (test site, flag), number of in-loop tests judged).
+    """
+    from sa.flow import Flow
+    from sa.model import ancestors
+    bad: List[Tuple[ast.AST, str]] = []
+    n = 0
+    for site, test, matched, _inv in match_sites(fi):
+        if not (isinstance(matched, str) and matched.isidentifier()):
+            continue
+        loops = [a for a in ancestors(site)
+                 if isinstance(a, (ast.For, ast.While)) and
+                 any(x is a for x in walk_local(fi.node))]
+        if not loops:
+            continue
+        loop = loops[0]          # innermost enclosing loop
+        # the flag as loop target is assigned per iteration by construction
+        if any(isinstance(x, ast.Name) and x.id == matched
+               for x in ast.walk(getattr(loop, "target", ast.Tuple(elts=[])))):
+            continue
+        n += 1
+        stale = {"hit": False}
+
+        def scan(expr: ast.AST, st) -> None:
+            if st:
+                return
+            for x in ast.walk(expr):
+                if x is test:
+                    stale["hit"] = True
+
+        def transfer(stmt: ast.stmt, st, flow):
+            if isinstance(stmt, (ast.Assign, ast.AnnAssign, ast.AugAssign)):
+                tgts = stmt.targets if isinstance(stmt, ast.Assign) \
+                    else [stmt.target]
+                if isinstance(stmt, ast.Assign) and stmt.value is test:
+                    scan(stmt.value, st)
+                if any(isinstance(x, ast.Name) and x.id == matched
+                       for t in tgts for x in ast.walk(t)):
+                    return [True]
+            return [st]
+
+        def branch(tst: ast.AST, st, flow):
+            scan(tst, st)
+            return [st], [st]
+        Flow(transfer, branch).run(loop.body, [False])
+        if stale["hit"]:
+            bad.append((site, matched))
+    return bad, n
